@@ -292,6 +292,7 @@ func syncHistory(c *Ctx, id int) {
 		f          *zFollower
 	}
 	var results []result
+	ns := nsBegin(c, aStore, chainA) // abstract node trace of every follower (s_sync_ns.go)
 	defer func() {
 		for _, r := range results {
 			if r.f != nil {
@@ -306,6 +307,7 @@ func syncHistory(c *Ctx, id int) {
 			return
 		}
 		results = append(results, result{name: sc.name, f: f})
+		nsAttach(ns, si, f)
 		pos := 0
 		batches := 0
 		for pos < len(chainA) {
@@ -360,7 +362,7 @@ func syncHistory(c *Ctx, id int) {
 							c.Hit("rival-not-competing")
 							continue
 						}
-						if err := f.Gossip([]*nom.AccountBlock{tx.Block}); err == nil {
+						if err := gossipContest(c, ns, f, b, tx.Block); err == nil {
 							c.Hit("rival-gossiped")
 						} else {
 							c.Hit("rival-refused")
@@ -398,6 +400,7 @@ func syncHistory(c *Ctx, id int) {
 			return
 		}
 		results[si].digest = f.StateDigest()
+		nsLedger(ns, si, results[si].digest, results[0].digest)
 		results[si].n, results[si].fnv = fnv64(f.mgr.Frontier())
 	}
 	// all followers byte-identical
